@@ -391,6 +391,11 @@ def template_programs():
                                           Expr(MCall(V("lst"), "push", I(2))), Print(V("lst"))]))},
         globs=[("cnt", I(0)), ("lst", List(I(1)))])
     add("uncaught", main(Print(S("a")), Expr(Call("throw", S("bye"))), Print(S("b"))))
+    # the exception is the LAST thing of a block that spans several lines (no `;` after it): its position is its own
+    add("uncaught_trailing_if", main(Print(S("a")), Expr(If(B(True), Block([Print(S("in"))], Call("throw", S("bye"))))), Print(S("b"))))
+    add("uncaught_trailing_block", main(Print(S("a")), Let("v", Block([Print(S("in"))], Call("throw", S("bye")))), Print(S("b"), V("v"))))
+    add("uncaught_trailing_arm", main(Print(S("a")), Expr(Match(I(1), [([I(1)], Block([Print(S("in"))], Call("throw", S("bye"))))], Block([]))), Print(S("b"))))
+    add("uncaught_trailing_fn", {"f": Fn([], Block([Print(S("in"))], Call("throw", S("deep")))), "main": Fn([], Block([Print(S("a")), Expr(Call("f")), Print(S("b"))]))})
     add("uncaught_in_callee", {"f": Fn([], Block([Expr(Call("throw", S("deep")))])),
                                "main": Fn([], Block([Print(S("a")), Expr(Call("f")), Print(S("b"))]))})
     add("index_oob", main(Let("l", List(I(1))), Print(Idx(V("l"), I(0)), Idx(V("l"), I(-1))), Print(Idx(V("l"), I(1)))))
